@@ -77,6 +77,12 @@ impl Tags {
     ) -> Result<&'a Tags, Error> {
         let numtags = parts.len();
         let length = Self::output_size_needed(parts);
+        // The section length, the number of tags, every tag offset, every string count
+        // and every string length are stored as u16, and none of them can exceed the
+        // section length.
+        if length > u16::MAX as usize {
+            return Err(InnerError::OutOfRange(length).into());
+        }
         if output.len() < length {
             return Err(InnerError::BufferTooSmall(length).into());
         }
